@@ -130,7 +130,7 @@ func runBarrier(jc *JobCtx, prop string, d barDriver, bound int) {
 		st = &barState{curFlush: map[int]int{}, destroyed: map[*skiplist.BarrierSession]bool{}}
 		outcome = ""
 		ga := gaFresh()
-		rand.NextLevel = func(bool) int { return 0 }
+		rand.NextLevel = func(int) int { return 0 }
 		rand.ResetGlobal()
 		cfg := skiplist.DefaultConfig()
 		cfg.UseMemoryMgmt = true
